@@ -7,6 +7,7 @@ HV ?= plain
 
 CXXFLAGS_plain := g++ -O2 -g -std=c++17 -Wall -Wextra -Wno-unused-parameter -fno-pic -fno-pie -DSIM_VARIANT='"plain"'
 CXXFLAGS_asan  := clang++ -O1 -g -std=c++17 -Wall -Wno-unused-parameter -fno-pic -fno-pie -fsanitize=address,undefined -fno-sanitize-recover=undefined -fno-omit-frame-pointer -DSIM_ASAN -DSIM_VARIANT='"asan"'
+CXXFLAGS_preempt := g++ -O2 -g -std=c++17 -Wall -Wextra -Wno-unused-parameter -fno-pic -fno-pie -DSIM_PREEMPT -DSIM_VARIANT='"preempt"'
 CXXFLAGS_tsan  := clang++ -O1 -g -std=c++17 -Wall -Wno-unused-parameter -fno-pic -fno-pie -DSIM_TSAN -DSIM_VARIANT='"tsan"'
 
 OBJS := $(patsubst %.cc,$(B)/h-$(HV)/%.o,$(notdir $(SRCS)))
@@ -16,6 +17,7 @@ all:
 	$(MAKE) HV=plain harness
 	$(MAKE) HV=asan harness
 	$(MAKE) HV=tsan harness
+	$(MAKE) HV=preempt harness
 
 harness: $(B)/h-$(HV)/.stamp
 
